@@ -2855,7 +2855,7 @@ header_genbank(ESL_SQFILE *sqfp, ESL_SQ *sq)
   } 
   
   s = ascii->buf+12;
-  if ((status = esl_strtok(&s, " ", &tok)) != eslOK)
+  if (ascii->nc < 12 || (status = esl_strtok(&s, " ", &tok)) != eslOK) /* nc<12: line ends before the name field in column 13 */
     ESL_FAIL(eslEFORMAT, ascii->errbuf, "Line %" PRId64 ": failed to parse name on LOCUS line", ascii->linenumber);
   if ((status = esl_sq_SetName(sq, tok)) != eslOK) return status;
   sq->roff = ascii->boff;/* record the disk offset to the LOCUS line */
@@ -2868,13 +2868,13 @@ header_genbank(ESL_SQFILE *sqfp, ESL_SQ *sq)
     if (strncmp(ascii->buf, "VERSION   ", 10) == 0)
     {
       s = ascii->buf+12;
-      if ((status = esl_strtok(&s, " \t\n", &tok)) != eslOK)
+      if (ascii->nc < 12 || (status = esl_strtok(&s, " \t\n", &tok)) != eslOK)
         ESL_FAIL(eslEFORMAT, ascii->errbuf, "Line %" PRId64 ": failed to parse VERSION line", ascii->linenumber);
       if ((status = esl_sq_SetAccession(sq, tok)) != eslOK) return status;
     }
 
     /* Optional DEFINITION Line is parsed as "description". */
-    if (strncmp(ascii->buf, "DEFINITION ", 11) == 0)
+    if (strncmp(ascii->buf, "DEFINITION ", 11) == 0 && ascii->nc >= 12)
     {
       s = ascii->buf+12;
       esl_strchop(s, ascii->nc-12);
